@@ -462,7 +462,9 @@ def build():
               lambda: sk.SkBaseTransformStacking([Ridge(alpha=float(i + 1)) for i in range(12)], "predict"),
               lambda: sk.SkBaseTransformStacking([LinearRegression()], extra="a"),
               lambda: sk.SkBaseTransformStacking([_ensemble("ExtraTreesRegressor", n_estimators=2, random_state=0),
-                                                  LinearRegression()], "predict")],
+                                                  LinearRegression()], "predict"),
+              # a free-form keyword whose name begins like the indexed keys of the members
+              lambda: sk.SkBaseTransformStacking([LinearRegression(), Ridge(alpha=2.0)], "predict", models_tag=3)],
              clf_data, clf3, methods=["transform"], rowwise=["transform"], fit_in_place=True,
              alts={"method": [lambda: "predict"],
                    "models": [lambda: [sk.SkBaseTransformLearner(Ridge(alpha=0.5), "predict"),
